@@ -463,6 +463,15 @@ pub fn case_from_json(case: &Value) -> Case {
 }
 
 fn replay(case: &Value, acc: &mut Acc) -> CaseResult {
+    if let Some(h) = case.get("fuzz_input_hex").and_then(|v| v.as_str()) {
+        // a fuzzer input that killed the process: run it again through the same entry point; only
+        // death matters here (an ordinary failure belongs to the property named in the case)
+        let data = hex::decode(h).unwrap_or_default();
+        let target = case["fuzz_target"].as_str().unwrap_or("fz_prop");
+        let prop = case["fuzz_prop"].as_str().unwrap_or("C01");
+        let r = crate::fuzzing::one_input(target, prop, &data, acc);
+        return if prop == "C01" { r } else { CaseResult::Pass };
+    }
     let c = case_from_json(case);
     // strict mode: both API paths and both type-checker configurations
     let mut first = None;
